@@ -288,6 +288,23 @@ def rng_ctor_calls(b):
     return out
 
 
+def _resolve_fields(v):
+    """`(Struct { a: x, .. }).a` -> x, through refs/derefs (a value passed to a function as a field of a parameter struct)."""
+    if not isinstance(v, tuple):
+        return v
+    if v[0] == "field":
+        base = _resolve_fields(v[1])
+        b0 = base
+        while b0[0] in ("ref", "deref"):
+            b0 = b0[1]
+        if b0[0] == "agg" and len(b0) > 3 and isinstance(b0[3], list) and v[2] in b0[3]:
+            return _resolve_fields(b0[2][b0[3].index(v[2])])
+        return ("field", base) + tuple(v[2:])
+    if v[0] in ("ref", "deref", "cast"):
+        return (v[0], _resolve_fields(v[1])) + tuple(v[2:])
+    return v
+
+
 def r2(F, R):
     R.rule("C10-R2", "the per-chain RNG is seed_from_u64(seed parameter) with set_stream(chain_id + c), c >= 1 constant, built in the spawning function "
                      "and moved into the worker; the controller RNG uses the same seed and a constant stream not of that form; start() receives "
@@ -301,13 +318,19 @@ def r2(F, R):
     ctors = rng_ctor_calls(s)
     streams = s.calls_to(lambda c: c.get("name") == "set_stream")
     c_off = None
+    seed_tree = None     # the seed of the chain RNG, as a tree over the spawning function's parameters
+    cid_tree = None      # the chain-dependent summand of the stream selector, likewise
     if len(ctors) != 1:
         R.bad("C10-R2", s.path + ":rng-ctor", site, "expected exactly one RNG construction in the spawning function, found %d" % len(ctors))
     else:
         bb, t = ctors[0]
         v = [s.value(a) for a in t["args"]]
-        if t["callee"]["name"] == "seed_from_u64" and len(v) == 1 and v[0][0] == "arg" and v[0][2] == "seed":
-            R.ok("C10-R2", s.path + ":rng-ctor", "%s @%s" % (s.path, loc(t["span"])), "rng = seed_from_u64(seed parameter)")
+        if t["callee"]["name"] == "seed_from_u64" and len(v) == 1 and v[0][0] == "arg":
+            seed_tree = v[0]
+            R.ok("C10-R2", s.path + ":rng-ctor", "%s @%s" % (s.path, loc(t["span"])), "rng = seed_from_u64(parameter `%s`)" % v[0][2])
+        elif t["callee"]["name"] == "seed_from_u64" and len(v) == 1 and v[0][0] == "call" and path_ends(v[0][1], "Settings::seed"):
+            seed_tree = v[0]
+            R.ok("C10-R2", s.path + ":rng-ctor", "%s @%s" % (s.path, loc(t["span"])), "rng = seed_from_u64(settings.seed())")
         else:
             R.bad("C10-R2", s.path + ":rng-ctor", "%s @%s" % (s.path, loc(t["span"])), "per-chain RNG is not seed_from_u64(seed): %s(%s)" % (
                 t["callee"]["name"], ", ".join(vt_str(x) for x in v)))
@@ -323,7 +346,12 @@ def r2(F, R):
             a, c = v[2], v[3]
             if c[0] != "const":
                 a, c = c, a
-            if a[0] == "arg" and a[2] == "chain_id" and c[0] == "const":
+            a_root = a
+            while a_root[0] in ("field", "deref", "ref", "cast"):
+                a_root = a_root[1]
+            if a_root[0] == "arg" and c[0] == "const":
+                # a parameter, or a field of a parameter (`spec.chain_id`); what it is bound to is judged at the call of start()
+                cid_tree = a
                 try:
                     c_off = int(c[2])
                 except (TypeError, ValueError):
@@ -399,16 +427,16 @@ def r2(F, R):
         starts = cs.calls_to(lambda c: path_ends(c["path"], "ChainProcess::start"))
         if not starts:
             R.missing("C10-R2", "call of ChainProcess::start")
+        from .c02 import subst_args
         for bb, t in starts:
-            names = [s.local_name(i) for i in range(1, s.arg_count + 1)]
-            vals = {n: cs.value(a) for n, a in zip(names, t["args"])}
+            argvals = [cs.value(a) for a in t["args"]]
             st = "%s @%s" % (cs.path, loc(t["span"]))
-            sv = vals.get("seed")
+            sv = subst_args(seed_tree, argvals) if seed_tree is not None else None
             if sv and sv[0] == "call" and path_ends(sv[1], "Settings::seed"):
-                R.ok("C10-R2", cs.path + ":start.seed", st, "start(seed = settings.seed())")
+                R.ok("C10-R2", cs.path + ":start.seed", st, "the chain RNG is seeded with settings.seed()")
             else:
-                R.bad("C10-R2", cs.path + ":start.seed", st, "start() seed argument is %s" % (vt_str(sv) if sv else None))
-            cv = vals.get("chain_id")
+                R.bad("C10-R2", cs.path + ":start.seed", st, "the chain RNG is seeded with %s, not settings.seed()" % (vt_str(sv) if sv else None))
+            cv = _resolve_fields(subst_args(cid_tree, argvals)) if cid_tree is not None else None
             it = cv and any(n[0] == "call" and n[1].endswith("::next") for n in vt_walk(cv)) and any(n[0] == "agg" and "Range" in str(n[1]) for n in vt_walk(cv))
             if it:
                 R.ok("C10-R2", cs.path + ":start.chain_id", st, "chain_id = item of a Range iteration (distinct per chain)")
